@@ -276,15 +276,22 @@ func (i *Interp) validateRequired(t types.Type, v value, path string, depth int)
 				fp = path
 			}
 			rules := strings.Split(tag, ",")
-			required, dive, omitempty := false, false, false
+			// rules before `dive` apply to the field, rules after it to its elements
+			required, dive, omitempty, elemRequired := false, false, false, false
 			for _, r := range rules {
 				switch r {
 				case "required":
-					required = true
+					if dive {
+						elemRequired = true
+					} else {
+						required = true
+					}
 				case "dive":
 					dive = true
 				case "omitempty":
-					omitempty = true
+					if !dive {
+						omitempty = true
+					}
 				}
 			}
 			zeroV := isZeroForValidate(f.Type(), sv[k])
@@ -306,6 +313,9 @@ func (i *Interp) validateRequired(t types.Type, v value, path string, depth int)
 				if dive {
 					if s, ok := sv[k].([]value); ok {
 						for n, e := range s {
+							if elemRequired && isZeroForValidate(ft.Elem(), e) {
+								return fmt.Sprintf("field '%s[%d]' is required", fp, n)
+							}
 							if msg := i.validateRequired(ft.Elem(), e, fmt.Sprintf("%s[%d]", fp, n), depth+1); msg != "" {
 								return msg
 							}
